@@ -97,7 +97,13 @@ impl<const D: usize> InvalidShapeError<D> {
     #[track_caller]
     #[inline]
     fn validate_dimensions_or_panic(shape: &[(Dimension, usize); D], data_len: usize) {
-        let elements = crate::tensors::dimensions::elements(shape);
+        let elements = match crate::tensors::dimensions::checked_elements(shape) {
+            Some(elements) => elements,
+            None => panic!(
+                "Product of dimension lengths must match size of data, but is too large to represent: {:?}",
+                &shape
+            ),
+        };
         if data_len != elements {
             panic!(
                 "Product of dimension lengths must match size of data. {} != {}",
@@ -114,8 +120,9 @@ impl<const D: usize> InvalidShapeError<D> {
 
     // Returns true if the shape is valid and matches the data length
     fn validate_dimensions(shape: &[(Dimension, usize); D], data_len: usize) -> bool {
-        let elements = crate::tensors::dimensions::elements(shape);
-        data_len == elements
+        // if the product of the lengths overflows it can't match the length of any data
+        let elements = crate::tensors::dimensions::checked_elements(shape);
+        Some(data_len) == elements
             && !crate::tensors::dimensions::has_duplicates(shape)
             && !shape.iter().any(|d| d.1 == 0)
     }
